@@ -8,6 +8,7 @@ import (
 	"io"
 	"log"
 	"os"
+	"time"
 
 	"github.com/brocaar/lorawan"
 	"github.com/jacobsa/crypto/cmac"
@@ -15,6 +16,7 @@ import (
 	"verifharness/internal/cases"
 	"verifharness/internal/cq"
 	"verifharness/internal/framefmt"
+	"verifharness/internal/micforge"
 	"verifharness/internal/noise"
 )
 
@@ -89,6 +91,8 @@ func frmKey(p lorawan.PHYPayload, k keys) lorawan.AES128Key {
 
 // send runs the documented sender sequence on p (in place) and returns the serialised frame.
 func send(p *lorawan.PHYPayload, v lorawan.MACVersion, k keys, prm params) (b []byte, s string) {
+	cases.Begin("sender sequence:"+framefmt.Phy(*p, 0), nil)
+	defer cases.End()
 	defer func() {
 		if r := recover(); r != nil {
 			b, s = nil, cq.Panic
@@ -121,6 +125,8 @@ func send(p *lorawan.PHYPayload, v lorawan.MACVersion, k keys, prm params) (b []
 
 // validate: UnmarshalBinary, FCnt := full, Validate*DataMIC by role.
 func validate(b []byte, v lorawan.MACVersion, up bool, k keys, prm params, full uint32) (q lorawan.PHYPayload, ok bool, s string) {
+	cases.Begin("UnmarshalBinary + Validate*DataMIC:"+hx(b), nil)
+	defer cases.End()
 	defer func() {
 		if r := recover(); r != nil {
 			ok, s = false, cq.Panic
@@ -147,6 +153,8 @@ func validate(b []byte, v lorawan.MACVersion, up bool, k keys, prm params, full 
 
 // receive runs the whole receiver sequence.
 func receive(b []byte, v lorawan.MACVersion, k keys, prm params, full uint32) (s string) {
+	cases.Begin("receiver sequence:"+hx(b), nil)
+	defer cases.End()
 	defer func() {
 		if r := recover(); r != nil {
 			s = cq.Panic
@@ -300,6 +308,41 @@ func pipeCase(s *cases.Set, p lorawan.PHYPayload, v lorawan.MACVersion, k keys, 
 	return b
 }
 
+// forgedExchange: an application frame CONSTRUCTED so that the MIC of its serialised (encrypted) form is `want`
+// (internal/micforge): the ciphertext's last block is solved from the tag, the plaintext is its decryption.
+func forgedExchange(s *cases.Set, r *cq.RNG, up bool, v lorawan.MACVersion, want lorawan.MIC, name string) {
+	mts := []lorawan.MType{lorawan.UnconfirmedDataDown, lorawan.ConfirmedDataDown}
+	if up {
+		mts = []lorawan.MType{lorawan.UnconfirmedDataUp, lorawan.ConfirmedDataUp}
+	}
+	n := 23 + 16*r.Intn(2)
+	p := framefmt.DataFrame(r, framefmt.Opt{MType: mts[r.Intn(2)], Port: 1 + r.Intn(255), FRMLen: n, FCntHigh: r.Intn(10) < 7})
+	m := p.MACPayload.(*lorawan.MACPayload)
+	ct := m.FRMPayload[0].(*lorawan.DataPayload)
+	k := keys{key(r), key(r), key(r), key(r)}
+	prm := params{counter(r), r.Byte(), r.Byte()}
+	b, err := p.MarshalBinary()
+	if err != nil {
+		return
+	}
+	msg := b[:len(b)-4]
+	last, ok := micforge.ForgeData(micforge.DataParams{Uplink: up, V11: v != lorawan.LoRaWAN1_0, ACK: m.FHDR.FCtrl.ACK, Conf: prm.conf,
+		TxDR: prm.dr, TxCh: prm.ch, FKey: k.f, SKey: k.s, DevAddr: m.FHDR.DevAddr, FCnt: m.FHDR.FCnt}, msg[:len(msg)-16], want, r.U64)
+	if !ok {
+		return
+	}
+	copy(ct.Bytes[n-16:], last[:])
+	plain, err := lorawan.EncryptFRMPayload(k.a, up, m.FHDR.DevAddr, m.FHDR.FCnt, append([]byte{}, ct.Bytes...))
+	if err != nil {
+		return
+	}
+	m.FRMPayload = []lorawan.Payload{&lorawan.DataPayload{Bytes: plain}}
+	bs := pipeCase(s, p, v, k, prm, "forged-mic-"+name, "forged:")
+	if bs != nil { // the matching validation as a tamper case too (carried MIC = specification MIC = the special value)
+		tamperCase(s, bs, v, up, k, prm, m.FHDR.FCnt, "forged-mic-"+name, "none:forged-"+name)
+	}
+}
+
 // withMType: the same frame content sent in the other direction / as the other confirmation type
 func withMType(p lorawan.PHYPayload, mt lorawan.MType) lorawan.PHYPayload {
 	q := clone(p)
@@ -363,7 +406,7 @@ func main() {
 	r := cq.NewRNG(seed)
 	nr = cq.NewRNG(seed ^ 0x9e3779b97f4a7c15)
 	s := cases.New("C05", dir, "LW.Corr.C05",
-		"RFC 4493 examples first; corpus: FPort 0 with empty FRMPayload (C05-1), a frame whose MHDR RFU bit is flipped (C05-2). Pipeline: data frames with MAC commands in FOpts (0..15 bytes) and application payload (block-boundary lengths), commands on port 0, FOpts only, empty payloads, raw bytes; 4 MTypes, both MAC versions, FCnt above 2^16 in 70%, random keys (1.0: one network key; in a third of the sessions SNwkSIntKey = FNwkSIntKey, all network keys equal, all-zero keys or zero integrity keys), ConfFCnt/txDR/txCh random; the bytes the implementation sends are also given to the model's receiver (a specification-conformant peer must recover the content). History: unrelated library calls (internal/noise) before every compared call; direction families run back to back (one frame content exchanged as downlink, uplink, confirmed downlink, confirmed uplink, uplink, downlink); every pipeline call is repeated twice later in the process (reverse and same order) and must give its first result. Tampering: for a subset of frames EVERY single-bit flip of the serialised frame (the receiver extends the 16 bits on the wire with its own upper 16 bits), and every single-parameter mismatch: each key with one bit flipped, FCnt +/- 2^16, ConfFCnt + 1 and + 2^16, txDR, txCh, validation with the other direction's function, the other MAC version. Every case distinct by construction.")
+		"RFC 4493 examples first; corpus: FPort 0 with empty FRMPayload (C05-1), a frame whose MHDR RFU bit is flipped (C05-2). Pipeline: data frames with MAC commands in FOpts (0..15 bytes) and application payload (block-boundary lengths), commands on port 0, FOpts only, empty payloads, raw bytes; 4 MTypes, both MAC versions, FCnt above 2^16 in 70%, random keys (1.0: one network key; in a third of the sessions SNwkSIntKey = FNwkSIntKey, all network keys equal, all-zero keys or zero integrity keys), ConfFCnt/txDR/txCh random; the bytes the implementation sends are also given to the model's receiver (a specification-conformant peer must recover the content). Special MIC values: exchanges of application frames CONSTRUCTED (internal/micforge) so that the MIC of the serialised frame is 00000000, ffffffff, 00000001 (both directions, both versions). History: unrelated library calls (internal/noise) before every compared call; direction families run back to back (one frame content exchanged as downlink, uplink, confirmed downlink, confirmed uplink, uplink, downlink); every pipeline call is repeated twice later in the process (reverse and same order) and must give its first result. Tampering: for a subset of frames EVERY single-bit flip of the serialised frame (the receiver extends the 16 bits on the wire with its own upper 16 bits), and every single-parameter mismatch: each key with one bit flipped, FCnt +/- 2^16, ConfFCnt + 1 and + 2^16, txDR, txCh, validation with the other direction's function, the other MAC version. Every case distinct by construction.")
 	s.ShardSize = 200
 	nPipe, nFlipFrames := 160, 24
 	if thorough {
@@ -407,6 +450,22 @@ func main() {
 				c := append([]byte{}, b...)
 				c[0] ^= 1 << bit
 				tamperCase(s, c, lorawan.LoRaWAN1_0, true, k, prm, 5, "corpus", fmt.Sprintf("bitflip:mhdr-rfu:byte=0:bit=%d", bit))
+			}
+		}
+	}
+	s.Watchdog(3 * time.Second)
+	{
+		rounds := 1
+		if thorough {
+			rounds = 20
+		}
+		for i := 0; i < rounds; i++ {
+			for _, up := range []bool{true, false} {
+				for _, v := range vers {
+					forgedExchange(s, r, up, v, lorawan.MIC{}, "00000000")
+					forgedExchange(s, r, up, v, lorawan.MIC{0xff, 0xff, 0xff, 0xff}, "ffffffff")
+					forgedExchange(s, r, up, v, lorawan.MIC{0, 0, 0, 1}, "00000001")
+				}
 			}
 		}
 	}
